@@ -37,22 +37,25 @@ def arrSpec (kw : Kw) (xs : List J) : Prop :=
   (∀ m, kw.maxItems = some m → xs.length ≤ m) ∧
   (kw.uniqueItems = true → uniqueB xs = true)
 
-def objSpec (kw : Kw) (kvs : List (String × J)) : Prop :=
+/-- read as a request: read-only properties must be absent and need not be present even if required, write-only
+ones are ordinary; read as a response the other way round (`forbidden`, `exempt` of the model are these two rules) -/
+def objSpec (env : Env) (kw : Kw) (p : List (String × S)) (kvs : List (String × J)) : Prop :=
   kw.permits "object" = true ∧
+  (∀ ks ∈ p, forbidden env ks.2 = true → (lookup ks.1 kvs).isSome = false) ∧
   kw.minProps ≤ kvs.length ∧
   (∀ m, kw.maxProps = some m → kvs.length ≤ m) ∧
-  (∀ k ∈ kw.required, (lookup k kvs).isSome = true)
+  (∀ k ∈ kw.required, (lookup k kvs).isSome = true ∨ ∃ s, lookup k p = some s ∧ exempt env s = true)
 
 def enumSpec (kw : Kw) (v : J) : Prop := kw.enum = [] ∨ ∃ e ∈ kw.enum, jeq e v = true
 
 /-- own (non-composition, non-child) keywords of a non-null value -/
-def ownSpec (env : Env) (kw : Kw) : J → Prop
+def ownSpec (env : Env) (kw : Kw) (p : List (String × S)) : J → Prop
   | .null => False
   | .bool _ => kw.permits "boolean" = true
   | .num q => numSpec kw q
   | .str s => strSpec env kw s
   | .arr xs => arrSpec kw xs
-  | .obj kvs => objSpec kw kvs
+  | .obj kvs => objSpec env kw p kvs
 
 mutual
 def Sat (env : Env) : S → J → Prop
@@ -63,7 +66,7 @@ def Sat (env : Env) : S → J → Prop
          ((∀ t, n = some t → ¬ Sat env t v) ∧ (c = [] ∨ ((discCheck kw v).pass = true ∧ SatCount env (discCheck kw v).ref c v 1)) ∧ (b = [] ∨ SatAny env b v) ∧ SatAll env a v))
     else
       ((∀ t, n = some t → ¬ Sat env t v) ∧ (c = [] ∨ ((discCheck kw v).pass = true ∧ SatCount env (discCheck kw v).ref c v 1)) ∧ (b = [] ∨ SatAny env b v) ∧ SatAll env a v) ∧
-      enumSpec kw v ∧ ownSpec env kw v ∧
+      enumSpec kw v ∧ ownSpec env kw p v ∧
       (match v with
        | .arr xs => ∀ t, i = some t → SatItems env t xs
        | .obj kvs => SatProps env p ad kw.addHas kvs
@@ -122,32 +125,34 @@ def arrSpecB (kw : Kw) (xs : List J) : Bool :=
   (match kw.maxItems with | some m => decide (xs.length ≤ m) | none => true) &&
   (!kw.uniqueItems || uniqueB xs)
 
-def objSpecB (kw : Kw) (kvs : List (String × J)) : Bool :=
-  kw.permits "object" && decide (kw.minProps ≤ kvs.length) &&
+def objSpecB (env : Env) (kw : Kw) (p : List (String × S)) (kvs : List (String × J)) : Bool :=
+  kw.permits "object" &&
+  p.all (fun ks => !forbidden env ks.2 || !(lookup ks.1 kvs).isSome) &&
+  decide (kw.minProps ≤ kvs.length) &&
   (match kw.maxProps with | some m => decide (kvs.length ≤ m) | none => true) &&
-  kw.required.all (fun k => (lookup k kvs).isSome)
+  kw.required.all (reqOK env p kvs)
 
-def ownSpecB (env : Env) (kw : Kw) : J → Bool
+def ownSpecB (env : Env) (kw : Kw) (p : List (String × S)) : J → Bool
   | .null => false
   | .bool _ => kw.permits "boolean"
   | .num q => numSpecB kw q
   | .str s => strSpecB env kw s
   | .arr xs => arrSpecB kw xs
-  | .obj kvs => objSpecB kw kvs
+  | .obj kvs => objSpecB env kw p kvs
 
 /-- non-recursive combination, same shape as the `Sat` clause -/
-def combineB (env : Env) (kw : Kw) (a b c : List S) (v : J)
+def combineB (env : Env) (kw : Kw) (a b c : List S) (p : List (String × S)) (v : J)
     (rNot : Bool) (rCount : Nat) (rAny rAll rChild : Bool) : Bool :=
   if v.isNull then
     kw.permitsNull || ((!a.isEmpty || !b.isEmpty || !c.isEmpty) &&
       (rNot && (c.isEmpty || ((discCheck kw v).pass && rCount == 1)) && (b.isEmpty || rAny) && rAll))
   else
-    (rNot && (c.isEmpty || ((discCheck kw v).pass && rCount == 1)) && (b.isEmpty || rAny) && rAll) && enumOK kw v && ownSpecB env kw v && rChild
+    (rNot && (c.isEmpty || ((discCheck kw v).pass && rCount == 1)) && (b.isEmpty || rAny) && rAll) && enumOK kw v && ownSpecB env kw p v && rChild
 
 mutual
 def satB (env : Env) : S → J → Bool
   | .mk kw a b c n i p ad, v =>
-    combineB env kw a b c v
+    combineB env kw a b c p v
       (match n with | none => true | some t => !satB env t v)
       (satCountB env (discCheck kw v).ref c v) (satAnyB env b v) (satAllB env a v)
       (match v with
